@@ -66,9 +66,7 @@ def c01_transfer(run):
                       z3.And(p.world['balance'] == post, z3.UGE(z3.Select(b0, k1), amt), z3.BVAddNoOverflow(z3.Select(mid, k2), amt, False)))
             run.prove(f'Ok => signer is not a bridge account [path {i}]', p.pc, z3.Not(z3.Select(w0['bridge_rollup?'], signer)))
             run.prove(f'Ok => nothing else written [path {i}]', p.pc, unchanged(w0, p.world, except_=('balance',)))
-        else:
-            run.prove(f'Err => no credit without debit; only the signer debit may precede the failure [path {i}]', p.pc,
-                      z3.And(z3.Or(p.world['balance'] == b0, p.world['balance'] == mid), unchanged(w0, p.world, except_=('balance',))))
+        # Err paths: the error propagates and the transaction's delta is dropped (C03-2), so partial writes are not observable -> nothing is claimed
     run.require_reached(*run.cur.reach)
     if not any(k.startswith('Ok =>') for k in run.cur.reach):
         raise Inconclusive('vacuity: no Ok path')
@@ -92,8 +90,7 @@ def value_action(name, fields):
             if kind == 'Ok':
                 n_ok += 1
                 run.prove(f'Ok => one debit and one credit of the same asset and amount, no wrap [path {i}]', p.pc, claim)
-            else:
-                run.prove(f'Err => never a credit without its debit [path {i}]', p.pc, z3.Or(p.world['balance'] == w0['balance'], p.world['balance'] == mid))
+            # Err paths propagate and are rolled back with the transaction's delta (C03-2): nothing is claimed about partial writes
         if not n_ok:
             raise Inconclusive('vacuity: no Ok path')
         run.require_reached(*run.cur.reach)
@@ -147,7 +144,7 @@ def c01_contracts(run):
                 run.prove(f'{which} Ok => exact update of exactly that cell, no wrap [path {i}]', p.pc,
                           z3.And(fits, p.world['balance'] == z3.Store(b0, k, new), unchanged(w0, p.world, except_=('balance',))))
             else:
-                run.prove(f'{which} Err => would wrap, nothing written [path {i}]', p.pc, z3.And(z3.Not(fits), unchanged(w0, p.world)))
+                run.prove(f'{which} Err => the update would wrap [path {i}]', p.pc, z3.Not(fits))
     run.require_reached(*run.cur.reach)
 
 
@@ -301,11 +298,7 @@ def c01_pay_fee(run):
                 run.prove(f'{name}: Ok => signer (and only the signer) debited exactly the fee that was added to the block fees, in the fee asset [path {i}]', p.pc,
                           z3.And(asset == fa, amount == p.world['fee_total'], p.world['balance'] == z3.Store(b0, k, z3.Select(b0, k) - amount), z3.UGE(z3.Select(b0, k), amount), position == pos,
                                  unchanged(w0, p.world, except_=('balance', 'block_fees', 'fee_total'))))
-            else:
-                # the error propagates and the transaction's delta is dropped (C03-2); still: no balance other than the signer's may have been touched
-                a = z3.BitVec('any_addr', 160); s = z3.BitVec('any_asset', 256); kk = bal_key(a, s)
-                run.prove(f'{name}: Err => no balance other than the signer\'s touched [path {i}]', p.pc,
-                          z3.Implies(z3.Select(p.world['balance'], kk) != z3.Select(b0, kk), a == signer))
+            # Err paths: the error propagates and the transaction's delta is dropped (C03-2) -> nothing is claimed
         if not n_ok:
             raise Inconclusive('vacuity: no Ok path for ' + name)
     run.require_reached(*run.cur.reach)
